@@ -27,7 +27,7 @@ TEXT = {
  "C17": "Every round of bounded naive-scheduler simulations over 1..3 pools with symbolic sizes, failures and arrival ticks satisfies the whole-pool FIFO statement.",
  "C18": "Every round of bounded overbook simulations (overcommit, pool-level OOM kills) with symbolic CPU count, RAM, memory demands and arrivals satisfies the statement, incl. abandonment after three failures.",
  "C19": "Every request of the real REST bridge against a stub server with symbolic decisions equals the true state; call schedule follows the poll rule; decisions executed as given; in-process twin gives identical results.",
- "C20": "snap: never up, less than one tick, on-grid unchanged, idempotent (RLX with monotone rounding, per rate); jitter in [a, a+delta]; per-sample seed reaches the generator.",
+ "C20": "snap: never up, less than one tick, on-grid unchanged, idempotent (RLX with monotone rounding, per rate); jitter in [a, a+delta]; per-sample seed reaches the generator; whole snap/jitter commands on traces with symbolic structure (in-memory files, scripted generator): other cells, grouping, order, draws.",
 }
 
 NOTE = ("Bounded: the claim holds for every input inside the stated bounds of evidence.coverage.bounds, nothing is claimed outside (see outside_claim). Trusted base: CrossHair 0.0.110 path "
@@ -46,8 +46,13 @@ def main():
         tech = []
         if "ch" in kinds:
             tech.append("bounded symbolic execution of the real classes (CrossHair + z3), 'Confirmed over all paths' per partition")
-        if "kn" in kinds:
+        if "kn" in kinds and pid != "C07":
             tech.append("AST->SMT translation of the source's float kernels: RLX unsat proofs, FPX bit-exact counterexample search (z3)")
+        if pid in ("C07", "C20"):
+            tech.append("auxiliary, not a solver verdict: native differential runs of the real code in fresh interpreter processes under several hash seeds "
+                        "(the clause 'fresh process under a different hash seed' / 'reproducible for a given seed'; hash randomisation is not a solver variable)")
+        if pid == "C07":
+            tech.append("each symbolic id-independence obligation is additionally run natively on points of its box (CrossHair models sets as insertion-ordered)")
         checks.append({
             "property_id": pid,
             "quick_cmd": f"./vcheck {pid} quick",
